@@ -32,6 +32,9 @@ class XRefNode(ConfigScalar(str)):
                 msg = f'Referenced node {str(curr)!r} is missing, while following a chain of references: {chain}'
                 raise ValueError(msg) from None
 
+            if str(curr) in chain:
+                raise ValueError(f'Circular reference: {str(curr)!r} was reached again while following a chain of references: {chain}')
+
             chain.append(str(curr))
             curr = ref
         assert curr is not self
